@@ -23,6 +23,7 @@ NAME = "C20"
 GEO = ("Point", "Line", "Plane", "Segment", "HalfLine", "ConvexPolygon", "ConvexPolyhedron")
 PAIR_Q = ("inter_f", "inter_m", "in", "distance", "angle", "parallel", "orthogonal", "eq")
 AUX_Q = ("aux_segment_from_points", "aux_points_in_a_line")  # public helpers of calc.aux_calc, operands: Points
+NESTED_Q = ("inter_nested",)  # intersection(intersection(a, b), c): an uncopied result is fed straight into a query
 SELF_Q = ("hash", "repr", "length", "area", "volume", "volume_fn")
 
 
@@ -45,6 +46,7 @@ def _q(name):
         "volume_fn": lambda a: G.volume(a),
         "aux_segment_from_points": lambda *pts: G.get_segment_from_point_list(list(pts)),
         "aux_points_in_a_line": lambda *pts: G.points_in_a_line(list(pts)),
+        "inter_nested": lambda a, b, c: G.intersection(G.intersection(a, b), c),
     }[name]
 
 
@@ -406,6 +408,12 @@ def generate(rng, k, tier="quick"):
         r = rng.random()
         if r < 0.03 and len(m.ent) < 12:
             m.aux_query()
+        elif 0.05 <= r < 0.07:
+            objs = m.ids(lambda e: e["t"] not in ("Vector",))
+            if len(objs) >= 3:
+                a, b, c = rng.sample(objs, 3)
+                m.ops.append({"op": "QUERY", "qid": m.nid("q"), "q": "inter_nested", "a": a, "b": b, "c": c})
+                m.queries.append(m.ops[-1]["qid"])
         elif r > 0.9 and rng.random() < 0.8:
             # ask - move an operand in place (axis-aligned) - ask again [- move back - ask again]
             movable = m.ids(lambda e: e["mut"] and e["kind"] in ("composite", "copy") and e["t"] not in ("Vector", "?"))
